@@ -59,10 +59,17 @@ def callsite_assertions(X, ins, key, argv, argops):
             if z3.is_expr(a):
                 env['a%d' % i] = SV(a, ao['type'])
         ev = SpecEval(X.V, X.pkg, env, X.heap, old=X.top_entry_heap())
+        ck = (ckey, lab)
+        X.V.call_clause_seen = getattr(X.V, 'call_clause_seen', {})
+        X.V.call_clause_seen.setdefault(ck, 0)
         try:
             X.oblige('callsite', ev.boolean(ast), ins.get('pos', ''), label='%s.%s' % (key, lab or '0'), text=txt)
+            X.V.call_clause_seen[ck] += 1
         except SpecError as e:
-            raise OutOfSubset('call clause for %s in %s: %s' % (key, X.fnkey, e))
+            # the clause names local variables that do not exist at this call site: it does not apply here
+            # (it must apply to at least one call site, checked at the end of generation)
+            if 'unknown identifier' not in str(e):
+                raise OutOfSubset('call clause for %s in %s: %s' % (key, X.fnkey, e))
 
 
 def call_function(X, ins, key, argv, argops):
